@@ -563,7 +563,7 @@ wait:
 				}
 				// something can still run (a loaded machine): keep waiting, give up
 				// after a while
-				if rearmed++; rearmed <= 12 {
+				if rearmed++; rearmed <= 90 {
 					lastChange = time.Now()
 					continue
 				}
